@@ -40,8 +40,7 @@ type Segment struct {
 	fieldDocs  map[uint16]uint64 // fieldID -> # docs with value in field
 	fieldFreqs map[uint16]uint64 // fieldID -> # total tokens in field
 
-	storedFieldChunkOffsets      []uint64 // stored field chunk offset
-	storedFieldChunkUncompressed []byte   // for uncompress cache
+	storedFieldChunkOffsets []uint64 // stored field chunk offset
 
 	dictLocs       []uint64
 	fieldDvReaders map[uint16]*docValueReader // naive chunk cache per field
@@ -202,10 +201,12 @@ func (s *Segment) visitDocument(vdc *visitDocumentCtx, num uint64,
 	visitor segment.StoredFieldVisitor) error {
 	// first make sure this is a valid number in this segment
 	if num < s.footer.numDocs {
-		meta, uncompressed, err := s.getDocStoredMetaAndUnCompressed(num)
+		block, meta, uncompressed, err := s.getDocStoredMetaAndUnCompressed(vdc.buf, num)
 		if err != nil {
 			return err
 		}
+		// keep the decompressed block as this context's scratch buffer
+		vdc.buf = block
 
 		vdc.reader.Reset(meta)
 
@@ -230,8 +231,6 @@ func (s *Segment) visitDocument(vdc *visitDocumentCtx, num uint64,
 			value := uncompressed[offset : offset+l]
 			keepGoing = visitor(s.fieldsInv[field], value)
 		}
-
-		vdc.buf = uncompressed
 	}
 	return nil
 }
